@@ -155,6 +155,7 @@ func Scan(query string) []Token {
 	s := scanner{s: query}
 	var tokens []Token
 	for {
+		verifSite(60)
 		start := s.pos
 		c, ok := s.next()
 		if !ok {
@@ -275,6 +276,7 @@ func Scan(query string) []Token {
 			if c == '/' {
 				// It's a comment, consume to end of line.
 				for {
+					verifSite(61)
 					c, ok = s.next()
 					if !ok || c == '\n' {
 						break
@@ -337,6 +339,7 @@ func Scan(query string) []Token {
 
 // SplitStatements splits the given string by semicolons.
 func SplitStatements(source string) []string {
+	verifSite(68)
 	tokens := Scan(source)
 	var parts []string
 	start := 0
@@ -361,6 +364,7 @@ func (s *scanner) ident() Token {
 	start := s.pos
 	s.next() // assume that the caller validated first character
 	for {
+		verifSite(62)
 		c, ok := s.next()
 		if !ok {
 			break
@@ -389,6 +393,7 @@ func (s *scanner) quotedIdent() Token {
 	}
 
 	for {
+		verifSite(63)
 		c, ok := s.next()
 		if !ok {
 			return errorToken(newSpan(start, s.pos), "parse quoted identifier: unexpected EOF")
@@ -459,6 +464,7 @@ func (s *scanner) numberOrDot() Token {
 			}
 
 			for {
+				verifSite(64)
 				c, ok := s.next()
 				if !ok {
 					break
@@ -506,6 +512,7 @@ func (s *scanner) numberOrDot() Token {
 
 	// Subsequent decimal digits.
 	for {
+		verifSite(65)
 		c, ok := s.next()
 		switch {
 		case !ok:
@@ -562,6 +569,7 @@ func (s *scanner) numberExponent() (found bool) {
 	}
 
 	for {
+		verifSite(66)
 		c, ok = s.next()
 		if !ok {
 			return true
@@ -599,6 +607,7 @@ func (s *scanner) string() Token {
 	valueStart := s.pos
 	var valueBuilder *strings.Builder // nil if no escapes encountered
 	for {
+		verifSite(67)
 		c, ok := s.next()
 		if !ok {
 			return errorToken(newSpan(start, s.pos), "unterminated string")
